@@ -89,6 +89,7 @@ C04.vis: parts that are not PER-visible (X.691 10.3.21; a PATTERN constraint sta
     element_constraints(m, ctx);
     open_ends(m, ctx);
     size_marker(m, ctx);
+    contained_marker(m, ctx, "C04.ext");
     crate::rules::c09::value_chain(m, ctx, "C04.scope");
     let consts = const_resolver(m);
     let inl = inline_all(m, &["ASN1Value", "SetOperation", "SubtypeElements", "ElementOrSetOperation"]);
@@ -1293,6 +1294,59 @@ fn size_marker(m: &Model, ctx: &mut Ctx) {
                 Ok(o) => ctx.fail_closed(rule, &format!("[{}]: {}", shown, o.show().chars().take(120).collect::<String>())),
                 Err(e) => ctx.fail_closed(rule, &format!("[{}]: {}", shown, e)),
             }
+        }
+    }
+}
+
+
+/// `INTEGER (INCLUDES E, ...)` / `INTEGER (E, ...)`: the marker written behind a contained subtype makes the bound extensible
+/// (and the Rust integer arbitrary-precision: both type selectors come through this conversion). The conversion
+/// TryFrom<Option<&SubtypeElements>> for PerVisibleRangeConstraints is evaluated on a contained INTEGER subtype whose own
+/// bound is 0..300, not extensible, with and without the marker.
+pub fn contained_marker(m: &Model, ctx: &mut Ctx, rule: &str) {
+    use std::collections::BTreeMap as Map;
+    let Some(f) = m.fns.iter().find(|f| f.name == "try_from" && f.self_ty.as_deref() == Some("PerVisibleRangeConstraints") && f.sig.inputs.iter().any(|a| tok(a).contains("Option<&SubtypeElements>"))) else {
+        ctx.fail_closed(rule, "anchor not found: TryFrom<Option<&SubtypeElements>> for PerVisibleRangeConstraints");
+        return;
+    };
+    ctx.func(&f.key);
+    let consts = const_resolver(m);
+    let pvrc = || {
+        let mut n = Map::new();
+        n.insert("min".to_string(), Val::some(Val::int(0)));
+        n.insert("max".to_string(), Val::some(Val::int(300)));
+        n.insert("extensible".to_string(), Val::Bool(false));
+        n.insert("is_size_constraint".to_string(), Val::Bool(false));
+        Val::Ctor("PerVisibleRangeConstraints".into(), vec![], n)
+    };
+    let hook = |_: &Evaluator, name: &str, a: &[Val]| -> Option<Result<Val, String>> {
+        match name {
+            "per_visible_range_constraints" => Some(Ok(Val::Ctor("Ok".into(), vec![pvrc()], Map::new()))),
+            ".constraints" if a.len() == 1 => Some(Ok(Val::List(vec![Val::Sym("0..300".into())]))),
+            ".as_ref" | ".clone" if a.len() == 1 => Some(Ok(a[0].clone())),
+            _ => None,
+        }
+    };
+    let ev = Evaluator { consts: &consts, call_hook: &hook, inline: None };
+    let p = f.sig.inputs.iter().filter_map(|a| match a { syn::FnArg::Typed(t) => Some(tok(&t.pat)), _ => None }).next().unwrap_or("value".into());
+    for marker in [true, false] {
+        let shown = if marker { "INTEGER (INCLUDES E, ...)" } else { "INTEGER (INCLUDES E)" };
+        ctx.oblige(rule, &format!("contained-subtype-marker:{}", marker), true);
+        let mut cs = Map::new();
+        cs.insert("subtype".to_string(), Val::Ctor("Integer".into(), vec![Val::Opaque("integer".into())], Map::new()));
+        cs.insert("extensible".to_string(), Val::Bool(marker));
+        let mut env = Env::new();
+        env.insert(p.clone(), Val::some(Val::Ctor("ContainedSubtype".into(), vec![], cs)));
+        match ev.eval_fn_body(&f.block, &mut env) {
+            Ok(Val::Ctor(ok, q, _)) if ok == "Ok" => {
+                let flag = match q.first() { Some(Val::Ctor(_, _, fm)) => fm.get("extensible").cloned(), _ => None };
+                if flag != Some(Val::Bool(marker)) {
+                    ctx.violate(rule, if marker { "contained-subtype-marker" } else { "contained-subtype-marker:invented" }, &f.file, f.line,
+                        &format!("{} with E ::= INTEGER (0..300) is converted into bounds with extensible = {:?}: the marker behind a contained subtype makes the constraint extensible — `A ::= INTEGER (INCLUDES E, ...)` is otherwise annotated value(\"0..=300\") and declared u16", shown, flag.map(|v| v.show())));
+                }
+            }
+            Ok(o) => ctx.fail_closed(rule, &format!("[{}]: {}", shown, o.show().chars().take(120).collect::<String>())),
+            Err(e) => ctx.fail_closed(rule, &format!("[{}]: {}", shown, e)),
         }
     }
 }
